@@ -22,6 +22,7 @@ type Case struct {
 	NamedSlices  bool
 	BoundsLayout int
 	NilMask      uint64
+	RecoverLA    bool
 	LoxText      string // filled in
 	GoText       string // filled in
 }
@@ -64,7 +65,7 @@ func Run(cases []*Case, fast bool) ([]*Out, error) {
 	forge.FastLoader(fast)
 	for _, c := range cases {
 		c.LoxText = c.G.Lox()
-		c.GoText = pgo.UserGo(c.G, pgo.Opts{OnBounds: c.OnBounds, NamedSlices: c.NamedSlices, BoundsLayout: c.BoundsLayout, NilMask: c.NilMask})
+		c.GoText = pgo.UserGo(c.G, pgo.Opts{OnBounds: c.OnBounds, NamedSlices: c.NamedSlices, BoundsLayout: c.BoundsLayout, NilMask: c.NilMask, RecoverLA: c.RecoverLA})
 		files := c.G.LoxFiles()
 		files["user.go"] = c.GoText
 		if _, err := b.Add(files); err != nil {
